@@ -1,6 +1,8 @@
 package main
 
 import (
+	"go/token"
+	"os"
 	"unicode"
 
 	"golang.org/x/tools/go/ssa"
@@ -29,6 +31,89 @@ type helperLink struct {
 
 // value aliases installed for transparent helpers (see strip()).
 var valueAlias = map[ssa.Value]ssa.Value{}
+
+// Atomic accessor wrappers: module functions (any number of call sites, not
+// already transparent) whose whole body is ONE sync/atomic operation on a field
+// reached from a parameter, returning that operation's result (or nothing).
+// A call of such a wrapper IS the atomic operation for every rule; the
+// operation inside the wrapper is not reported a second time (see atomicOp).
+type atomicWrapper struct {
+	inner *ssa.Call
+	fn    *ssa.Function
+}
+
+var atomicWrappers = map[*ssa.Function]*atomicWrapper{}
+
+func wrapperCandidate(h *ssa.Function) *atomicWrapper {
+	if h.Blocks == nil || len(h.Blocks) != 1 || h.Synthetic != "" {
+		return nil
+	}
+	var inner *ssa.Call
+	var ret *ssa.Return
+	for _, in := range h.Blocks[0].Instrs {
+		switch x := in.(type) {
+		case *ssa.FieldAddr, *ssa.Field, *ssa.DebugRef, *ssa.ChangeType, *ssa.Convert:
+		case *ssa.UnOp:
+			if x.Op != token.MUL {
+				return nil
+			}
+		case *ssa.Call:
+			f := x.Call.StaticCallee()
+			if f == nil || f.Pkg == nil || f.Pkg.Pkg.Path() != "sync/atomic" || inner != nil {
+				return nil
+			}
+			inner = x
+		case *ssa.Return:
+			ret = x
+		default:
+			return nil
+		}
+	}
+	if inner == nil || ret == nil || len(inner.Call.Args) == 0 {
+		return nil
+	}
+	if len(ret.Results) > 1 || (len(ret.Results) == 1 && stripConv(ret.Results[0]) != ssa.Value(inner)) {
+		return nil
+	}
+	// address: field chain rooted at a parameter; other arguments: parameters or constants
+	root := inner.Call.Args[0]
+	for n := 0; n < 8; n++ {
+		switch x := root.(type) {
+		case *ssa.FieldAddr:
+			root = x.X
+			continue
+		case *ssa.UnOp:
+			root = x.X
+			continue
+		}
+		break
+	}
+	if _, ok := root.(*ssa.Parameter); !ok {
+		return nil
+	}
+	for _, a := range inner.Call.Args[1:] {
+		switch stripConv(a).(type) {
+		case *ssa.Parameter, *ssa.Const:
+		default:
+			return nil
+		}
+	}
+	return &atomicWrapper{inner: inner, fn: h}
+}
+
+func stripConv(v ssa.Value) ssa.Value {
+	for n := 0; n < 8; n++ {
+		switch x := v.(type) {
+		case *ssa.ChangeType:
+			v = x.X
+		case *ssa.Convert:
+			v = x.X
+		default:
+			return v
+		}
+	}
+	return v
+}
 
 // instruction index inside its block, for all module functions
 var instrIdx = map[ssa.Instruction]int{}
@@ -118,6 +203,22 @@ func (p *Prog) computeTransparency() {
 			}
 			seen[cur] = true
 			cur = l.caller
+		}
+	}
+	// atomic accessor wrappers (only functions that are not already looked through)
+	for _, h := range all {
+		if _, isHelper := p.helpers[h]; isHelper {
+			continue
+		}
+		u := uses[h]
+		if u == nil || len(u.calls) == 0 || u.other != 0 {
+			continue
+		}
+		if w := wrapperCandidate(h); w != nil {
+			atomicWrappers[h] = w
+			if os.Getenv("NITRO_DEBUG") != "" {
+				println("atomic wrapper:", h.String())
+			}
 		}
 	}
 	// aliases
@@ -314,4 +415,61 @@ func (p *Prog) funcsReturnedBy(fn *ssa.Function) []*ssa.Function {
 		}
 	}
 	return out
+}
+
+// retSources: when v is the call of a transparent helper (or an Extract of
+// it), the values the helper returns in that position, over all its returns
+// (named results resolved through the result cells). nil otherwise.
+func (p *Prog) retSources(v ssa.Value) []ssa.Value {
+	idx := 0
+	var call *ssa.Call
+	switch x := v.(type) {
+	case *ssa.Extract:
+		c, ok := x.Tuple.(*ssa.Call)
+		if !ok {
+			return nil
+		}
+		call, idx = c, x.Index
+	case *ssa.Call:
+		call = x
+	default:
+		return nil
+	}
+	h := call.Call.StaticCallee()
+	if h == nil {
+		return nil
+	}
+	if l, ok := p.helpers[h]; !ok || l.call != call {
+		return nil
+	}
+	hfi := p.Info(h)
+	var out []ssa.Value
+	for _, r := range hfi.Returns() {
+		if idx < len(r.Results) {
+			out = append(out, hfi.RetVal(r, idx))
+		}
+	}
+	return out
+}
+
+// paramOfHelper: when in is the call of a transparent helper and v is passed
+// as its i-th argument, the helper's parameter; nil otherwise.
+func (p *Prog) paramOfHelper(in ssa.Instruction, v ssa.Value) *ssa.Parameter {
+	call, ok := in.(*ssa.Call)
+	if !ok {
+		return nil
+	}
+	h := call.Call.StaticCallee()
+	if h == nil {
+		return nil
+	}
+	if l, ok := p.helpers[h]; !ok || l.call != call {
+		return nil
+	}
+	for i, a := range call.Call.Args {
+		if a == v && i < len(h.Params) {
+			return h.Params[i]
+		}
+	}
+	return nil
 }
